@@ -9,6 +9,11 @@ structure St where
   fixed : Bool := false
   stored : Upgrade.Upgrade := {}
   live : Globals := {}
+  -- the implementation's own last reported state (the executable spec judges against these)
+  iStored : Upgrade.Upgrade := {}
+  iLive : Globals := {}
+  -- an upgrade went through the legacy (pre-codec-height) branch since the last boot
+  preCodec : Bool := false
 
 def parseStrs (s : String) : Option (List Bytes) :=
   if s = "-" then some [] else (s.splitOn ",").mapM Bytes.parse
@@ -122,14 +127,14 @@ def step (st : St) (pre post : List String) : St × Verdict :=
     match post with
     | [s, g] =>
       match parseUpgrade s, parseGlobals g with
-      | some u, some gl => ({ st with stored := u, live := gl }, .ok)
+      | some u, some gl => ({ st with stored := u, live := gl, iStored := u, iLive := gl, preCodec := false }, .ok)
       | _, _ => (st, .bad "state")
     | _ => (st, .bad "arity")
   | ["up", bh, own, h, ver, fs] =>
     match bh.toInt?, h.toInt?, Bytes.parse ver, parseStrs fs, post with
     | some bh, some h, some ver, some fs, [res, s, g] =>
       let msg : Upgrade.Upgrade := { height := h, version := ver, features := fs }
-      let after := isAfterUpgradeHeight st.live bh
+      let after := isAfterUpgradeHeight st.iLive bh
       let out : String × Upgrade.Upgrade × Globals :=
         if own = "0" then ("fail", st.stored, st.live)
         else match handleUpgrade st.stored st.live bh msg with
@@ -143,13 +148,13 @@ def step (st : St) (pre post : List String) : St × Verdict :=
         match parseUpgrade s, parseGlobals g with
         | some iu, some ig =>
           if res ≠ "ok" then
-            (if s!"{s} {g}" ≠ s!"{renderUpgrade st.stored} {renderGlobals st.live}" then
+            (if s!"{s} {g}" ≠ s!"{renderUpgrade st.iStored} {renderGlobals st.iLive}" then
               some (.propfail "failed-upgrade-changed-state" s!"{impl}") else none)
           else
             let named := keysOf fs
             let okNamed := named.all fun k => some (ig.featureMap.get k) = lastFor fs k
-            let kept := (keysOf st.stored.features).all fun k => (keysOf iu.features).contains k
-            let canon := canonicalFor (st.stored.features ++ fs) iu.features
+            let kept := (keysOf st.iStored.features).all fun k => (keysOf iu.features).contains k
+            let canon := canonicalFor (st.iStored.features ++ fs) iu.features
             if okNamed && kept && canon.isNone then none
             else if !after then
               some (.propfail "upgrade-before-codec-height-not-merged"
@@ -164,7 +169,11 @@ def step (st : St) (pre post : List String) : St × Verdict :=
           if m = implN || sig ≠ "upgrade-before-codec-height-not-merged" then .propfail sig d else .diff s!"model={m} impl={implN}"
         | some v => v
         | none => cmp m implN
-      ({ st with stored := mu, live := mg }, v)
+      let (is', il') := match parseUpgrade s, parseGlobals g with
+        | some iu, some ig => (iu, ig)
+        | _, _ => (st.iStored, st.iLive)
+      ({ st with stored := mu, live := mg, iStored := is', iLive := il',
+                 preCodec := st.preCodec || (res = "ok" && !after) }, v)
     | _, _, _, _, _ => (st, .bad "args")
   | ["pred", k, h, tol] =>
     match Bytes.parse k, h.toInt?, tol.toInt? with
@@ -172,7 +181,7 @@ def step (st : St) (pre post : List String) : St × Verdict :=
       let g := st.live
       let m := s!"{isAfterNamed g h k} {isOnNamed g h k} {isOnNamedWithTolerance g h k tol} {isAfterFeature 0 g h k}"
       -- spec: active exactly from its (non-zero) height
-      let a := g.featureMap.get k
+      let a := st.iLive.featureMap.get k
       let want := decide (a ≠ 0 ∧ h ≥ a)
       (st, if post.head? ≠ some (toString want) then .propfail "activation-predicate-wrong" s!"key={k} scheduled={a} h={h} impl={impl}" else cmp m impl)
     | _, _, _ => (st, .bad "args")
@@ -184,13 +193,21 @@ def step (st : St) (pre post : List String) : St × Verdict :=
       match parseGlobals g with
       | some ig =>
         let v : Verdict :=
-          if schedule ig.featureMap ≠ schedule st.live.featureMap then
-            let d := s!"stored={renderUpgrade st.stored} live={schedule st.live.featureMap} after-restart={schedule ig.featureMap}"
-            if m ≠ g then .diff s!"model={m} impl={g}"
-            else if st.stored.height = 0 then .propfail "restart-loses-features-when-upgrade-height-zero" d
-            else .propfail "restart-differs-after-pre-codec-upgrade" d
+          if schedule ig.featureMap ≠ schedule st.iLive.featureMap then
+            let d := s!"stored={renderUpgrade st.iStored} live={schedule st.iLive.featureMap} after-restart={schedule ig.featureMap}"
+            -- the two known causes, recognised on the implementation's own state
+            let lostAtZero := st.iStored.height = 0 && schedule ig.featureMap = "-"
+            let preCodec := st.preCodec && st.iStored.height ≠ 0 &&
+              (match sliceToMap st.iStored.features with
+                | some fm => schedule fm = schedule ig.featureMap && schedule fm ≠ schedule st.iLive.featureMap
+                | none => false)
+            if lostAtZero then
+              (if m = g then .propfail "restart-loses-features-when-upgrade-height-zero" d else .diff s!"model={m} impl={g}")
+            else if preCodec then
+              (if m = g then .propfail "restart-differs-after-pre-codec-upgrade" d else .diff s!"model={m} impl={g}")
+            else .propfail "restart-changes-schedule" d
           else cmp m g
-        ({ st with live := mg }, v)
+        ({ st with live := mg, iLive := ig, preCodec := false }, v)
       | none => (st, .bad "globals")
     | none, _ => (st, cmp "PANIC" impl)
     | _, _ => (st, .bad "arity")
